@@ -65,6 +65,11 @@ VSHAPES = [
     ['list', [['wsig', 1], ['wsig', 3]]], ['list', [['wpath', 0], ['wpath', 1]]],
     ['dict', [[['kstr', 'p'], ['wpath', 1]]]],
 ]
+# wide records: the inferred signature approaches the 255-character limit (its length byte crosses 127)
+for _total in (127, 128, 129, 200, 255):
+    VSHAPES.append(['tuple', [['pint']] + [['pfloat', 1]] * (_total - 3)])
+VSHAPES.append(['list', [['tuple', [['w', 'y']] + [['pfloat', 2]] * 150]]])
+VSHAPES.append(['tuple', [['tuple', [['pfloat', 1]] * 60 + [['pstr', 1]]], ['tuple', [['pfloat', 3]] * 80]]])
 
 
 _feas = {}
@@ -284,7 +289,10 @@ def obligations(tier):
         if not in_claim(sh):
             raise HarnessError('shape outside the claim listed: %r' % (sh,))
         for off, le in combos:
-            obs.append(Ob('infer:%02d:%s:o%d:%s' % (i, ref_infer(sh), off, 'le' if le else 'be'), 'infer',
+            rs = ref_infer(sh)
+            if len(rs) > 24:
+                rs = rs[:20] + '..%d' % len(rs)
+            obs.append(Ob('infer:%02d:%s:o%d:%s' % (i, rs, off, 'le' if le else 'be'), 'infer',
                           {'shape': sh, 'off': off, 'le': le}, timeout=90, path_timeout=20,
                           twin=True, functions=FUNCS[1:4], bounds='leaves symbolic; shape concrete'))
     return obs
